@@ -27,10 +27,11 @@ vars == <<s, body, head, red, track>>
 Leaf(n) == [op |-> n]
 Un(o, a) == [op |-> o, a |-> a]
 Bin(o, a, b) == [op |-> o, a |-> a, b |-> b]
+\* sscal: t * s with the scalar s = sum(t) passed as a 0-d tensor that itself depends on the tracked cores (product rule)
 RECURSIVE Bodies(_)
 Bodies(n) == IF n = 0 THEN {Leaf("x"), Leaf("y")}
              ELSE LET T == Bodies(n - 1) IN
-                  T \cup {Un(o, a) : o \in {"neg", "scal", "adds", "matvec", "mprod"}, a \in T}
+                  T \cup {Un(o, a) : o \in {"neg", "scal", "sscal", "adds", "matvec", "mprod"}, a \in T}
                     \cup {Bin(o, a, b) : o \in {"add", "sub", "mul"}, a \in T, b \in Bodies(0)}
 
 Heads == {"id", "slice", "ell", "rslice", "cat", "pad", "kron", "diag", "full", "bcast"}
